@@ -67,11 +67,18 @@ class Obligation:
         self.inputs = inputs or {}
         self.note = note
 
-    def smt2(self):
+    def smt2(self, byte_ranges=False):
         s = z3.Solver()
         for c in self.pc:
             s.add(c)
         s.add(z3.Not(self.goal))
+        if byte_ranges:
+            # inputs of type bytes really are bytes: used to obtain replayable models (and to discard
+            # counter-models that only exist with out-of-range "bytes")
+            i = z3.Int("i!rng")
+            for n, t in self.inputs.items():
+                if z3.is_seq(t) and not z3.is_string(t):
+                    s.add(z3.ForAll([i], z3.Implies(z3.And(0 <= i, i < z3.Length(t)), z3.And(t[i] >= 0, t[i] < 256))))
         return s.to_smt2()
 
 
@@ -344,6 +351,11 @@ class FnExec:
     def at_exit(self, st, sig):
         if sig is FALL:
             sig = ("ret", NONE)
+        if sig[0] == "ret" and self.c.generator:
+            uses = self.inst_uses(self.c.use, st, None)
+            for name, e in self.c.ends:
+                self.oblige(st, f"ends[{name}]", self.truth(self.ev_spec(e, st)), "ends", use=uses)
+            return
         if sig[0] == "ret":
             res = sig[1]
             # in postconditions parameter names denote the ENTRY values (callers cannot observe rebinding);
@@ -374,6 +386,10 @@ class FnExec:
                     else:
                         conds.append(self.truth(self.ev_spec(c, self.entry_with(st))))
                 self.oblige(st, f"raises[{exc}].sound", z3.Or(*conds), "raises", use=self.inst_uses(self.c.use, st, None))
+            for e, post in self.c.on_raise:
+                if exc_isinstance(exc, e):
+                    self.oblige(st, f"on_raise[{e}]", self.truth(self.ev_spec(post, st)), "raises",
+                                use=self.inst_uses(self.c.use, st, None))
         else:
             raise Unsupported(f"signal {sig} at function exit")
 
@@ -494,6 +510,20 @@ class FnExec:
     def s_Expr(self, node, st):
         if isinstance(node.value, ast.Constant):
             yield st, FALL     # docstring
+            return
+        if isinstance(node.value, ast.Yield):
+            # generator step contract: the clauses `yields` must hold for the yielded value
+            for st1, v in self.ev(node.value.value, st):
+                if isinstance(v, Raised):
+                    yield st1, ("raise", v.exc)
+                    continue
+                st2 = st1.clone()
+                st2.ghost["yielded"] = v
+                uses = self.inst_uses(self.c.use, st2, None)
+                for name, e in self.c.yields:
+                    self.oblige(st2, f"yields[{name}]@{node.lineno}", self.truth(self.ev_spec(e, st2)), "yields",
+                                node.lineno, use=uses)
+                yield st1, FALL
             return
         for st1, v in self.ev(node.value, st):
             if isinstance(v, Raised):
@@ -819,6 +849,8 @@ class FnExec:
             if self.feasible(sb):
                 if it is not None:
                     self.assign(node.target, elem(sb.env[kname].t), sb)
+                for g, e in spec.ghost_head.items():
+                    sb.ghost[g] = self.ev_spec(e, sb)
                 v0 = self.ev_spec(spec.decreases, sb).t if spec.decreases else None
                 for st4, sig in self.exec_block(node.body, sb):
                     if sig is FALL or sig is CONT:
@@ -1603,8 +1635,16 @@ class FnExec:
                 iff_conds.append(ct)
             elif kind == "only_if":
                 s_r.assume(ct)
-            # state after an exceptional return: modified objects are havoced
+            # state after an exceptional return: modified objects are havoced, then constrained by on_raise
             self.havoc_modified(c, cst, s_r)
+            rpost = State()
+            rpost.pc, rpost.env, rpost.heap, rpost.ghost = s_r.pc, dict(cst.env), s_r.heap, dict(cst.ghost)
+            for e2, post in c.on_raise:
+                if exc_isinstance(exc, e2):
+                    sub_r = FnExec.__new__(FnExec)
+                    sub_r.__dict__.update(sub.__dict__)
+                    sub_r.entry = cst
+                    s_r.assume(sub_r.truth(sub_r.ev_spec(post, rpost)))
             if self.feasible(s_r):
                 yield s_r, Raised(SV("exc", exc))
         # 3. normal return
